@@ -15,6 +15,8 @@ import Jqawk.Lemmas.NewlineTokens
 import Jqawk.Lemmas.NewlineLayout
 import Jqawk.Lemmas.NewlineSemiRun
 import Jqawk.Lemmas.NewlineTexts
+import Jqawk.Lemmas.NewlineBytesRun
+import Jqawk.Lemmas.NewlineSemiBytes
 import Jqawk.Model.Eval
 
 namespace Jqawk.C13
@@ -953,14 +955,10 @@ example : Lexer.VTrivia b!"# header\n\n" b!"BEGIN { print 1 }" ∧
     after `print`/`return`/a print-level comma or before `;`): if `src₁` parses, `src₂` parses to
     the same AST up to positions.  The hypothesis on the two texts is decidable (`nlMoreB`).
 
-    Missing for the full clause "a newline byte (alone or after a comment) may be inserted
-    between any two tokens": (1) texts with `/`: which bytes are tokens then depends on the
-    parser's prefix/infix decision, so the relation between the two texts must follow the run (as
-    `newline_layout_invariant` allows, but no instance is constructed); (2) a proof that
-    inserting vertical trivia at a token boundary of `src₁` yields `NlMoreAt`-related token
-    sequences — the step at the boundary is `nextNN_vtrivia_flag`; what is not proved is that
-    the tokens lexed BEFORE the boundary are unchanged (the lexer looks ahead one or two bytes:
-    `=`/`==`, `1`/`1.5`, identifier characters), i.e. that the boundary stays a boundary. -/
+    (Partial: texts without `/`, and the hypothesis is a computed relation between the two token
+    sequences.  The statement for ANY text with the insertion point given as a token boundary of
+    the parser's own run is `newline_insertion_bytes` below; it rests on the prefix stability of
+    the lexer, Lemmas/NewlineBytes.lean.) -/
 theorem newline_insertion_texts_partial (tbl : RuleTable) (hT : Nl.TableOK tbl = true)
     (src₁ src₂ : Bytes) (h₁ : (47 : UInt8) ∉ src₁) (h₂ : (47 : UInt8) ∉ src₂)
     (hlen : src₁.length ≤ src₂.length) (ts₁ ts₂ : List (Token × Bool))
@@ -1023,6 +1021,113 @@ example :
         (LexState.init b!"# program\n\nBEGIN\n{ x = f(1,\n 2); # call\n if (x)\n print [x,\n 1]\n else\n {\n print 2 } }\n") = some ts₂ ∧
       Nl.nlMoreB Nl.G.init ts₁ ts₂ = true) := by
   refine ⟨by decide +kernel, by decide +kernel, _, _, rfl, rfl, ?_⟩
+  decide +kernel
+
+/-! #### the level of bytes, any program text -/
+
+/-- C13 (newline insertion, bytes — any program text, also with regex literals and division):
+    the text `a ++ v ++ b` parses; `v` is the trivia standing at an insertion point (possibly
+    empty), `w` (non-empty, at least as long) is vertical trivia — blanks, `#` comments each
+    running up to a newline, newlines — that replaces it.  The insertion point is a token boundary
+    of the text *as the parser lexed it*: one of the `next` requests of the run on `a ++ v ++ b`
+    found the lexer in a state `sb` with exactly `v ++ b` unread (`Nl.nextStates` records ghost and
+    lexer state at every `next` request; which bytes are tokens after a `/` is decided by the
+    run).  If `w` brings a newline where there was none, the token `t` then delivered must be
+    allowed to carry one: `Nl.Allowed gb t` for the recorded ghost state `gb` — not after
+    `print`/`return`, not after a print-level comma, `t` not `;` (see `insertable_spec`).
+    Then `a ++ w ++ b` parses to the same AST up to positions.  Any `TableOK` rule table.
+
+    The two side conditions on `w` are needed resp. an artefact: `w ≠ []` — replacing trivia by
+    nothing can merge tokens (`x y` / `xy`, examples below); `v.length ≤ w.length` — the model's
+    fuel grows with the length of the text (with less fuel the model might answer `oof`). -/
+theorem newline_insertion_bytes (tbl : RuleTable) (hT : Nl.TableOK tbl = true) (a v w b : Bytes)
+    (gb : Nl.G) (sb : LexState) (I : Nl.Ins v w b gb sb) (hlen : v.length ≤ w.length)
+    (hreach : (gb, sb) ∈ Nl.nextStates Nl.G.init
+      (Parser.parseProgram tbl (parserFuel (a ++ (v ++ b))) PS.init) (LexState.init (a ++ (v ++ b))))
+    (p : Program) (hp : parseProgramSrc tbl (a ++ (v ++ b)) = .ok p) :
+    ∃ p', parseProgramSrc tbl (a ++ (w ++ b)) = .ok p' ∧ erase p = erase p' := by
+  rw [parseProgramSrc_eq] at hp ⊢
+  cases hr : (Parser.parseProgram tbl (parserFuel (a ++ (v ++ b))) PS.init).run
+      (LexState.init (a ++ (v ++ b))) with
+  | ok r =>
+    obtain ⟨p₀, st⟩ := r
+    rw [hr] at hp
+    simp only [stripPS, ParseRes.ok.injEq] at hp
+    subst hp
+    obtain ⟨p', st', h', he⟩ := Nl.parseProgram_bytes hT I _ (parserFuel (a ++ (w ++ b)))
+      (by unfold parserFuel; simp only [List.length_append]; omega) hreach hr
+    exact ⟨p', by rw [h']; rfl, he⟩
+  | syntaxErr e => rw [hr] at hp; cases hp
+  | oof => rw [hr] at hp; cases hp
+
+/-- … and the same for `ParseExpression` -/
+theorem newline_insertion_bytes_expr (tbl : RuleTable) (hT : Nl.TableOK tbl = true) (a v w b : Bytes)
+    (gb : Nl.G) (sb : LexState) (I : Nl.Ins v w b gb sb) (hlen : v.length ≤ w.length)
+    (hreach : (gb, sb) ∈ Nl.nextStates Nl.G.init
+      (Parser.parseExpression tbl (parserFuel (a ++ (v ++ b))) PS.init) (LexState.init (a ++ (v ++ b))))
+    (e : Expr) (hp : parseExpressionSrc tbl (a ++ (v ++ b)) = .ok e) :
+    ∃ e', parseExpressionSrc tbl (a ++ (w ++ b)) = .ok e' ∧ erase e = erase e' := by
+  rw [parseExpressionSrc_eq] at hp ⊢
+  cases hr : (Parser.parseExpression tbl (parserFuel (a ++ (v ++ b))) PS.init).run
+      (LexState.init (a ++ (v ++ b))) with
+  | ok r =>
+    obtain ⟨p₀, st⟩ := r
+    rw [hr] at hp
+    simp only [stripPS, ParseRes.ok.injEq] at hp
+    subst hp
+    obtain ⟨p', st', h', he⟩ := Nl.parseExpression_bytes hT I _ (parserFuel (a ++ (w ++ b)))
+      (by unfold parserFuel; simp only [List.length_append]; omega) hreach hr
+    exact ⟨p', by rw [h']; rfl, he⟩
+  | syntaxErr e => rw [hr] at hp; cases hp
+  | oof => rw [hr] at hp; cases hp
+
+/-- the parse of a text as a dump of the position-erased AST -/
+def parseSrcE (src : Bytes) : Option Bytes :=
+  match parseProgramSrc expectedRuleTable src with
+  | .ok p => some (dumpProgram (erase p))
+  | _ => none
+
+/-- Non-vacuity on a text with a regex literal (containing a blank) and a division:
+    `$1 ~ /a b/ { x = $1 / 2; print x }`, the blank after `;` replaced by a comment and a newline.
+    The recorded state (the 11th `next` request: ghost `⟨;, [false]⟩`, lexer at offset 24) is found
+    by evaluation; all hypotheses of `newline_insertion_bytes` hold; and the two parses agree. -/
+example :
+    ∃ gb sb, Nl.Ins b!" " b!" # then\n" b!"print x }" gb sb ∧
+      (gb, sb) ∈ Nl.nextStates Nl.G.init
+        (Parser.parseProgram expectedRuleTable
+          (parserFuel (b!"$1 ~ /a b/ { x = $1 / 2;" ++ (b!" " ++ b!"print x }"))) PS.init)
+        (LexState.init (b!"$1 ~ /a b/ { x = $1 / 2;" ++ (b!" " ++ b!"print x }"))) ∧
+      (parseSrcE b!"$1 ~ /a b/ { x = $1 / 2; print x }").isSome = true ∧
+      parseSrcE b!"$1 ~ /a b/ { x = $1 / 2; print x }" =
+        parseSrcE b!"$1 ~ /a b/ { x = $1 / 2; # then\nprint x }" := by
+  refine ⟨⟨.semiColon, [false]⟩, ⟨b!" print x }", 24, 23⟩, ?_, by decide +kernel, by decide +kernel,
+    by decide +kernel⟩
+  refine ⟨.blank _ _ _ rfl (.nil _), ?_, by decide, by decide, rfl, ?_⟩
+  · exact .blank _ _ _ rfl (.comment b!" then" _ _ (by decide) (.inr rfl) (.newline _ _ (.nil _)))
+  · intro _ _ t nl s' h _
+    have : Lexer.nextNN (b!" print x }".length + 1) ⟨b!" print x }", 24, 23⟩ false
+        = .ok (⟨.print, 25, []⟩, false, ⟨b!" x }", 30, 25⟩) := by rfl
+    rw [this] at h
+    cases h
+    decide
+
+/-- the insertion point follows the parser's lexing: inside the regex literal `/a b/` there is no
+    token boundary (no `next` request finds the lexer at offset 7, in front of `b/`), and a newline
+    there changes the program (the regex) — whereas around the division operator there are
+    boundaries (offsets 19 and 21) -/
+example :
+    let sts := Nl.nextStates Nl.G.init
+      (Parser.parseProgram expectedRuleTable (parserFuel b!"$1 ~ /a b/ { x = $1 / 2; print x }") PS.init)
+      (LexState.init b!"$1 ~ /a b/ { x = $1 / 2; print x }")
+    (sts.map fun x => x.2.pos) = [0, 2, 4, 10, 12, 14, 16, 19, 21, 23, 24, 30, 32, 34] ∧
+    parseSrcE b!"$1 ~ /a\nb/ { x = $1 / 2; print x }" ≠ parseSrcE b!"$1 ~ /a b/ { x = $1 / 2; print x }" ∧
+    parseSrcE b!"$1 ~ /a b/ { x = $1\n/\n2; print x }" = parseSrcE b!"$1 ~ /a b/ { x = $1 / 2; print x }" := by
+  decide +kernel
+
+/-- `w ≠ []` is needed: removing the blank between two tokens merges them -/
+example : parseSrcE b!"BEGIN { x = a b }" = none ∧ (parseSrcE b!"BEGIN { x = ab }").isSome = true ∧
+    parseSrcE b!"BEGIN { x = = 1 }" = none ∧ (parseSrcE b!"BEGIN { x == 1 }").isSome = true ∧
+    parseSrcE b!"BEGIN { x = 1 .5 }" = none ∧ (parseSrcE b!"BEGIN { x = 1.5 }").isSome = true := by
   decide +kernel
 
 /-! ### 9. `;` for a newline
@@ -1117,5 +1222,61 @@ example :
     parseText b!"function f() { return;1 }" = parseText b!"function f() { return\n1 }" ∧
     (parseText b!"function f() { return\n1 }").isSome = true := by
   decide +kernel
+
+/-- C13 (`;` for a newline, bytes — any program text): the three texts `a ++ "\n" ++ b`,
+    `a ++ " " ++ b`, `a ++ ";" ++ b` differ in one byte.  The newline byte stands at a token
+    boundary of the first text as the parser lexed it (a `next` request of its run found the
+    lexer with exactly `"\n" ++ b` unread: `Nl.nextStates`); `t₀` is the token after it, not `;`,
+    `}`, `)` or the end of the text (`Semi.Hyp`); `;` has precedence 0 in the rule table.  If the
+    first text parses to `p`, then the second does (the newline was not significant) or the
+    third does — to the very same AST, positions included, since no offset changes. -/
+theorem semicolon_for_newline_bytes (tbl : RuleTable) (hprec : (lookupRule tbl .semiColon).prec = 0)
+    (a b : Bytes) (pb tsb : Nat) (gb : Nl.G) (t₀ : Token) (nl₀ : Bool) (s' : LexState)
+    (ht₀ : Lexer.nextNN (b.length + 1) ⟨b, pb + 1, pb⟩ false = .ok (t₀, nl₀, s'))
+    (H : Semi.Hyp t₀ ⟨.semiColon, pb, []⟩)
+    (hreach : (gb, (⟨10 :: b, pb, tsb⟩ : LexState)) ∈ Nl.nextStates Nl.G.init
+      (Parser.parseProgram tbl (parserFuel (a ++ 10 :: b)) PS.init) (LexState.init (a ++ 10 :: b)))
+    (p : Program) (hp : parseProgramSrc tbl (a ++ 10 :: b) = .ok p) :
+    parseProgramSrc tbl (a ++ 32 :: b) = .ok p ∨ parseProgramSrc tbl (a ++ 59 :: b) = .ok p := by
+  have hf : ∀ c : UInt8, parserFuel (a ++ c :: b) = parserFuel (a ++ 10 :: b) := by
+    intro c; simp [parserFuel]
+  rw [parseProgramSrc_eq] at hp
+  rw [parseProgramSrc_eq, parseProgramSrc_eq, hf 32, hf 59]
+  cases hr : (Parser.parseProgram tbl (parserFuel (a ++ 10 :: b)) PS.init).run
+      (LexState.init (a ++ 10 :: b)) with
+  | ok r =>
+    obtain ⟨p₀, st⟩ := r
+    rw [hr] at hp
+    simp only [stripPS, ParseRes.ok.injEq] at hp
+    subst hp
+    rcases Semi.parseProgram_semi_bytes hprec a b pb tsb gb t₀ nl₀ s' ht₀ H _ hreach hr with
+      ⟨st', h⟩ | ⟨st', h⟩
+    · left; rw [h]; rfl
+    · right; rw [h]; rfl
+  | syntaxErr e => rw [hr] at hp; cases hp
+  | oof => rw [hr] at hp; cases hp
+
+/-- the parse of a text as a dump of the AST with positions -/
+def parseSrcD (src : Bytes) : Option Bytes := dumpParse (parseProgramSrc expectedRuleTable src)
+
+/-- Non-vacuity on a text with a regex literal and a division:
+    `$1 ~ /a b/ { x = $1 / 2⏎print x }`.  The hypotheses hold for the newline at offset 23 (the
+    10th `next` request); without the newline the text is a syntax error; with `;` it parses to
+    the same AST (positions included). -/
+example :
+    (∃ gb tsb t₀ nl₀ s',
+      Lexer.nextNN (b!"print x }".length + 1) ⟨b!"print x }", 23 + 1, 23⟩ false = .ok (t₀, nl₀, s') ∧
+      Semi.Hyp t₀ ⟨.semiColon, 23, []⟩ ∧
+      (gb, (⟨10 :: b!"print x }", 23, tsb⟩ : LexState)) ∈ Nl.nextStates Nl.G.init
+        (Parser.parseProgram expectedRuleTable
+          (parserFuel (b!"$1 ~ /a b/ { x = $1 / 2" ++ 10 :: b!"print x }")) PS.init)
+        (LexState.init (b!"$1 ~ /a b/ { x = $1 / 2" ++ 10 :: b!"print x }"))) ∧
+    (lookupRule expectedRuleTable .semiColon).prec = 0 ∧
+    (parseSrcD b!"$1 ~ /a b/ { x = $1 / 2\nprint x }").isSome = true ∧
+    parseSrcD b!"$1 ~ /a b/ { x = $1 / 2 print x }" = none ∧
+    parseSrcD b!"$1 ~ /a b/ { x = $1 / 2;print x }" = parseSrcD b!"$1 ~ /a b/ { x = $1 / 2\nprint x }" := by
+  refine ⟨⟨⟨.num, [false]⟩, 22, ⟨.print, 24, []⟩, false, ⟨b!" x }", 29, 24⟩, by rfl,
+    ⟨rfl, by decide, by decide, by decide, by decide⟩, by decide +kernel⟩,
+    by decide, by decide +kernel, by decide +kernel, by decide +kernel⟩
 
 end Jqawk.C13
